@@ -27,7 +27,7 @@ TECH = {
     "C15": "RF-DEP flags provenance + RF-INIT constructor completeness + RF-DOM CRC/Hamming dominance + RF-NEG decode-error taint (stores, shifts, unexamined results) + RF-IVL intervals with loop trip-count caps + RF-CORR tracker update + RF-PURE",
     "C16": "RF-WHO export write layer + RF-DOM grow-before-store",
     "C17": "RF-TAB return-code/metacharacter table agreement + RF-IVL capacity",
-    "C18": "RF-LOCK lockset + lock order + RF-DOM service-mask dominance",
+    "C18": "RF-LOCK context-sensitive lockset over main loop and acquisition thread (queue_mutex, clnt_mutex), lock pairing and order + RF-DOM service filter / free-at-zero / subscriber dominance + RF-CORR mask rebuild + RF-PAIR drain-on-close",
     "C19": "RF-TAB message-type exhaustiveness/length + RF-TAINT client fields to sinks + RF-STATE token transitions",
     "C20": "RF-LOCK context-sensitive must-lockset (path-sensitive typestate, caller lockset as context) over the documented cross-thread entry points + lock pairing on all paths + callbacks-without-locks + lock-order acyclicity",
 }
